@@ -110,6 +110,31 @@ def run(ctx):
     if known_hit:
         ctx.known_finding('C13-single-pattern-shortcut-icase', 'glob(%r, %s|SCANDOTDIR) returns %r in two spellings' % known_hit[0])
     ctx.counted('lists vs single patterns', evals, len(nontriv), samples)
+
+    # ---- NEGATE vs exclude=: once `exclude=` is given (even empty) every list entry is an inclusion ---------------------
+    import pathlib
+    nspec = [('a', 'f', None), ('b', 'f', None), ('!a', 'f', None), ('-b', 'f', None), ('sub', 'd', None), ('sub/x', 'f', None), ('sub/!x', 'f', None), ('sub/y', 'f', None)]
+    n2 = 0
+    with trees.Tree(nspec) as TN:
+        for pats in (['*', '!a'], ['!a'], ['b|!a'], ['**', '!**/x'], ['*', '-b'], ['!*']):
+            for extra in (0, Gm.NEGATEALL, Gm.SPLIT, Gm.MINUSNEGATE, Gm.GLOBSTAR):
+                for exarg in ([], (), '', ['zzz'], ['a']):
+                    n2 += 1
+                    fvn = Gm.NEGATE | extra
+                    # reference: the same call with the negation flags removed (exclude= takes over their job)
+                    want = sorted(Gm.glob(pats, flags=fvn & ~(Gm.NEGATE | Gm.NEGATEALL | Gm.MINUSNEGATE), exclude=exarg, root_dir=TN.root))
+                    got = sorted(Gm.glob(pats, flags=fvn, exclude=exarg, root_dir=TN.root))
+                    if exarg == '' :
+                        # an empty string is "no exclusion pattern": documented behaviour is that of exclude=None
+                        continue
+                    if got != want:
+                        ctx.counterexample('glob(%r, %s, exclude=%r) = %r; with exclude= given the list entries are inclusions: expected %r' % (
+                            pats, corr.flag_names(fvn), exarg, got[:6], want[:6]), {'patterns': pats, 'flags': corr.flag_names(fvn), 'exclude': repr(exarg), 'tree': nspec})
+                    pg = sorted(str(x.relative_to(TN.root)) for x in __import__('wcmatch.pathlib', fromlist=['Path']).Path(TN.root).glob(pats, flags=fvn, exclude=exarg))
+                    if pg != sorted(x.rstrip('/') for x in want):
+                        ctx.counterexample('Path.glob(%r, %s, exclude=%r) = %r, glob gives %r' % (pats, corr.flag_names(fvn), exarg, pg[:6], want[:6]),
+                                           {'patterns': pats, 'flags': corr.flag_names(fvn), 'exclude': repr(exarg), 'tree': nspec})
+    ctx.counted('NEGATE with exclude= (incl. empty)', n2, n2 // 2, [{'patterns': ['*', '!a'], 'exclude': []}])
     return ctx.finish(RULE)
 
 
